@@ -373,6 +373,7 @@ class UnitResult:
         self.wall = 0.0
         self.uncovered = 0
         self.child_access = []
+        self.bounded = None        # bounded native stand-in of a unit that left the verifier's reach: {'tried', 'bound', 'violations'}
 
 
 def generic_clauses(cx, ex, st, oc):
@@ -405,6 +406,7 @@ def verify_config(contract, cfg, both=False, z3_timeout=None):
     t0 = time.time()
     label = f'fragment:{contract.cls_name}[{contract.label(cfg)}]'
     res = UnitResult(label, cfg)
+    cx = None
     try:
         frag.ACCESS_LOG.clear()
         node, kids = contract.build(cfg)
@@ -535,6 +537,22 @@ def verify_config(contract, cfg, both=False, z3_timeout=None):
         res.error = ('out-of-subset', str(e))
     except RoleError as e:
         res.error = ('role', str(e))
+    if res.error is not None and res.error[0] in ('out-of-subset', 'role') and cx is not None and getattr(cx, 'tree', None) is not None:
+        # the unit left the verifier's reach: a BOUNDED native stand-in takes its place (labelled bounded, never counted as proved);
+        # a concrete failing behaviour found there is a violation with a replayed input
+        from . import replay as _rp
+        from .solve import Verdict
+        try:
+            if hasattr(contract, 'bounded'):
+                bad, tried, bound = contract.bounded(cx)
+            else:
+                bad, tried, bound = _rp.bounded_fragment(cx, contract)
+        except Exception as e2:
+            bad, tried, bound = [], 0, f'bounded stand-in crashed: {type(e2).__name__}: {e2}'
+        res.bounded = {'tried': tried, 'bound': bound, 'violations': len(bad)}
+        if bad:
+            res.verdicts.append(Verdict('bounded:emitted-text-on-all-small-child-behaviours', 'post', 'sat', 'native-enumeration', 0.0,
+                                        model=None, note={'reproduced': True, 'violated': bad[:2], 'bound': bound, 'tried': tried}))
     res.wall = time.time() - t0
     return res
 
@@ -574,4 +592,4 @@ def result_to_dict(res):
         vs.append(d)
     return {'unit': res.unit, 'cfg': res.cfg, 'error': res.error, 'verdicts': vs, 'ground': res.ground,
             'paths': res.paths, 'wall': round(res.wall, 3), 'src': res.src, 'flags': res.flags,
-            'uncovered': res.uncovered, 'stats': res.stats, 'child_access': res.child_access}
+            'uncovered': res.uncovered, 'stats': res.stats, 'child_access': res.child_access, 'bounded': res.bounded}
